@@ -82,6 +82,20 @@ def decodeOf (evs : List (Bytes × Nat × Except Exc JTop)) (b : Bytes) : Except
   | some e => e.2.2
   | none => .error .other
 
+/-- `[[scheme, configured port], bound port | null]` -/
+def parseAttempt (j : Json) : R Attempt := do
+  match ← arr j with
+  | [i, b] =>
+    let iface ← parseIface i
+    if b.isNull then return ⟨iface, .failed⟩
+    let bound ← b.getNat?
+    return ⟨iface, .started bound⟩
+  | _ => throw "bad attempt"
+
+def srvStateJson (s : SrvState) : Json :=
+  Json.mkObj [("interfaces", jarr (s.interfaces.map (fun e => jarr [jcps e.1.scheme, jnat e.1.port, jnat e.2]))),
+    ("live", jarr (s.live.map (fun L => jnats L.ports)))]
+
 def handle (j : Json) : R Json := do
   let k ← fldStr j "k"
   match k with
@@ -121,6 +135,25 @@ def handle (j : Json) : R Json := do
     let steps ← (← fldArr j "steps").mapM parseStep
     return Json.mkObj [("ok", Json.bool (runOKB n startup received announce steps)),
       ("why", jopt Json.str (diagnose n startup received announce steps))]
+  | "server_rounds" =>
+    let rounds ← (← fldArr j "rounds").mapM (fun r => do (← arr r).mapM parseAttempt)
+    let states := runRounds generatedServerTables tables (← fldCps j "id") (← fldCps j "version")
+      (← optCps (← fld j "desc")) .init rounds
+    return Json.mkObj [("rounds", jarr (states.map srvStateJson))]
+  | "judge_server_round" =>
+    -- served: ports on which the node answers; listener/answers/live: ports that are or can be announced
+    let served ← fldNats j "served"
+    let listener ← fldNats j "listener"
+    let answers ← fldNats j "answers"
+    let live ← fldNats j "live"
+    let answered ← fldBool j "answered"
+    let why : Option String :=
+      if !announcedServedB served listener then some "responder-announces-port-not-served"
+      else if !announcedServedB served live then some "earlier-responder-left-running-with-port-not-served"
+      else if !announcedServedB served answers then some "answer-carries-port-not-served"
+      else if !answered then some "no-answer-over-udp"
+      else none
+    return Json.mkObj [("ok", Json.bool why.isNone), ("why", jopt Json.str why)]
   | _ => throw s!"C19: unknown verb {k}"
 
 end Frappy.Drive.C19
